@@ -1,6 +1,7 @@
 package gen
 
 import (
+	"strings"
 	. "verif/jt"
 )
 
@@ -20,7 +21,7 @@ func (g *Gen) NsNamePool() NsNames {
 	return NsNames{
 		// names that begin like a pseudonym of the replacement texts in use ("REDACTED_…", "anon_…", "_…")
 		DBs:   []string{"shop" + t, "shop" + t + "_archive", "Δβ" + u, "db-" + u, "anon_" + u, "REDACTED_" + t, "admin"},
-		Colls: []string{"orders" + t, "orders" + t + ".archive", "orders" + t + "_v2", "c" + u + "é漢", "anon_" + t, "_" + u + "x", "77" + g.digits(5), "20" + g.digits(2) + "." + g.digits(6), "arch" + t + ".2024", "REDACTED_" + u, "system.views", "system.buckets." + u, "$cmd", "oplog.rs", "a." + t + ".b.c"},
+		Colls: []string{"orders" + t, "orders" + t + ".archive", "orders" + t + "_v2", "c" + u + "é漢", "anon_" + t, "_" + u + "x", "77" + g.digits(5), "20" + g.digits(2) + "." + g.digits(6), "arch" + t + ".2024", "eu(" + t, "c++" + u, "tmp[" + t, "jobs(*)" + u, "a|b" + t, "REDACTED_" + u, "system.views", "system.buckets." + u, "$cmd", "oplog.rs", "a." + t + ".b.c"},
 	}
 }
 
@@ -145,7 +146,14 @@ func (g *Gen) NsCase(n NsNames, db, coll, verb, carrier string, depth int) *Case
 		// commands, findAndModify, count ...): attr.ns then does NOT name the collection the verb names
 		attrNs = db + ".$cmd"
 	}
-	return g.Case(CaseOpts{Verb: verb, Carrier: carrier, Comp: Comps[g.R.Intn(3)], DB: db, Coll: coll, Cmd: cmd, AttrNs: attrNs})
+	cs := g.Case(CaseOpts{Verb: verb, Carrier: carrier, Comp: Comps[g.R.Intn(3)], DB: db, Coll: coll, Cmd: cmd, AttrNs: attrNs})
+	if g.chance(0.15) {
+		// a failed operation carries the server's error text (no names planted in it)
+		if attr := cs.Line.Get("attr"); attr != nil && attr.K == Obj {
+			attr.Set("errMsg", KeepS("E11000 duplicate key error index: _id_ dup key: { _id: 1 } (attempt 2 of 3)"))
+		}
+	}
+	return cs
 }
 
 // NsLog builds a multi-line log mixing 2–6 namespaces of one pool.
@@ -170,6 +178,11 @@ func (g *Gen) NsLog(lines int) ([]*Case, NsNames) {
 		}
 		cs := g.NsCase(n, x.db, x.coll, verb, car, i%4)
 		out = append(out, cs)
+		if i%7 == 3 && x.coll != "$cmd" && strings.ToUpper(x.coll[:1])+x.coll[1:] != x.coll {
+			// the very next line: the same operation on a collection whose name differs only in letter case
+			// (collection names are case-sensitive: "Orders" and "orders" are two collections, two names)
+			out = append(out, g.NsCase(n, x.db, strings.ToUpper(x.coll[:1])+x.coll[1:], verb, Carriers[0], i%4))
+		}
 		if i%9 == 4 {
 			// the next batch of a database-wide change stream: the cursor lives in the command namespace, so
 			// attr.ns is "<db>.$cmd.aggregate" and getMore names the collection "$cmd.aggregate"
